@@ -200,11 +200,12 @@ FILES_IN_DIR = Inst(models._FilesInDir, _relative_parent=PATH, _absolute_parent=
 
 M.contract(P_MODELS + ':_FilesInDir.new_for_sub_dir', params=dict(self=FILES_IN_DIR, dir_entry=DIR_ENTRY),
            inline=True,
-           ensures={'one level deeper, parent/name': lambda self, dir_entry, result:
-           result.depth == self.depth + 1
-           and den(result._relative_parent) == join(den(self._relative_parent), P(dir_entry.name))
-           and den(result._absolute_parent.primitive)
-           == join(den(self._absolute_parent.primitive), P(dir_entry.name))}, raises_only=())
+           ensures={'one level deeper': lambda self, result: result.depth == self.depth + 1,
+                    'relative path: parent/name': lambda self, dir_entry, result:
+                    den(result._relative_parent) == join(den(self._relative_parent), P(dir_entry.name)),
+                    'absolute path: parent/name': lambda self, dir_entry, result:
+                    den(result._absolute_parent.primitive)
+                    == join(den(self._absolute_parent.primitive), P(dir_entry.name))}, raises_only=())
 
 M.contract(P_MODELS + ':_FilesInDir.file_model', params=dict(self=FILES_IN_DIR, dir_entry=DIR_ENTRY), inline=True,
            ensures={'the entry, at parent/name': lambda self, dir_entry, result:
@@ -361,7 +362,8 @@ M.contract(P_FL + ':_child_dp', params=dict(root=DESCRIBED_PATH, relative_path=I
            den(result.primitive) == join(den(root.primitive), den(relative_path))}, raises_only=())
 M.loop(P_FL + ':_child_dp', 0,
        invariant=lambda _i, root, relative_path, ret_val:
-       den(ret_val.primitive) == join(den(root.primitive), prefix(den(relative_path), _i)),
+       pathspec.path_axioms()
+       and den(ret_val.primitive) == join(den(root.primitive), prefix(den(relative_path), _i)),
        modifies=dict(ret_val=DESCRIBED_PATH, component='local'))
 
 
@@ -1175,3 +1177,233 @@ def _bounded_populate(ctx):
                        note='compared: HARD_ERROR or not, the resulting tree with file contents (entries applied in the '
                             'listed order), verdicts of matches / matches -full against the exact, a larger, a smaller '
                             'and a rejecting condition')
+
+
+# ============================================================================== matches -full: count, names, matchers
+
+from pyvc.api import MListOf, RefTo
+from exactly_lib.impls.types.files_matcher.impl.matches import matches_full, common as matches_common
+
+P_MF = 'exactly_lib.impls.types.files_matcher.impl.matches.matches_full'
+
+
+# FilesCondition.files: a mapping  pure path -> optional FileMatcher.  has_key / is_checked / matcher_at are
+# functions of the key; n_keys is the number of keys.
+
+def _map_getitem(interp, self, args, kwargs):
+    pid = pathspec.pid_of(interp, args[0])
+    has = interp.reg.call_opaque(interp, self, 'has_key', [pid], {})
+    if not interp.branch(has):
+        raise PyRaise(KeyError('no such file name'))
+    checked = interp.reg.call_opaque(interp, self, 'is_checked', [pid], {})
+    m = interp.reg.call_opaque(interp, self, 'matcher_at', [pid], {})
+    return SOpt(z3.Not(to_z3(checked)), m)
+
+
+class KeysI(Interface):
+    methods = {'__len__': Method(returns=Nat, pure=True)}
+
+
+class FilesMapI(Interface):
+    methods = {
+        'has_key': Method(returns=Bool, pure=True),
+        'is_checked': Method(returns=Bool, pure=True),
+        'matcher_at': Method(returns=FILE_MATCHER, pure=True),
+        'keys': Method(returns=Iface(KeysI), pure=True),
+        '__getitem__': Method(model=_map_getitem),
+    }
+
+
+class FilesConditionI(Interface):
+    attrs = {'files': Iface(FilesMapI), 'describer': Any_}
+
+
+def n_keys(fc):
+    return len(fc.files.keys())
+
+
+def expected_name(fc, file):
+    """the relative path of the file is a key of the condition"""
+    return fc.files.has_key(den(file.relative_to_root_dir))
+
+
+def _accepted_by_condition(interp, args, kwargs):
+    """no case split: (not checked) or D(matcher_at(key), file) as one term"""
+    fc, f = args
+    files = interp.getattr(fc, 'files')
+    pid = interp.getattr(interp.getattr(f, 'relative_to_root_dir'), 'pid')
+    checked = interp.reg.call_opaque(interp, files, 'is_checked', [pid], {})
+    m = interp.reg.call_opaque(interp, files, 'matcher_at', [pid], {})
+    d = interp.reg.call_opaque(interp, m, 'D', [interp.getattr(f, 'fid')], {})
+    return wrap(z3.Or(z3.Not(to_z3(checked)), to_z3(d)))
+
+
+def accepted_by_condition(fc, file):
+    """the matcher the condition gives for the name of the file (if any) accepts the file"""
+    m = fc.files[den(file.relative_to_root_dir)]
+    return m is None or m.D(file.fid)
+
+
+M.model(accepted_by_condition, _accepted_by_condition)
+
+
+def _name_match_ok(interp, args, kwargs):
+    nm = args[0]
+    m = nm.fc_matcher
+    fid = interp.getattr(nm.match_from_model, 'fid')
+    if m is None:
+        return True
+    if isinstance(m, SOpt):
+        d = interp.reg.call_opaque(interp, m.val, 'D', [fid], {})
+        return wrap(z3.Or(m.is_none, to_z3(d)))
+    return interp.reg.call_opaque(interp, m, 'D', [fid], {})
+
+
+def name_match_ok(nm):
+    """a _NameMatch without matcher, or whose matcher accepts its file"""
+    return nm.fc_matcher is None or nm.fc_matcher.D(nm.match_from_model.fid)
+
+
+M.model(name_match_ok, _name_match_ok)
+
+
+def _index_of(interp, args, kwargs):
+    return wrap(args[0]._pv_index[0])
+
+
+def index_of(x):
+    """position of a file in the sequence of files of the model (proof level)"""
+    raise NotImplementedError
+
+
+M.model(index_of, _index_of)
+
+_FILE_REF = RefTo(FileModelI, 'model.files_seq[]')
+_MATCHER_REF = RefTo(FileMatcherI, 'files_condition.files.matcher_at()')
+_NAME_MATCH = Inst(matches_full._NameMatch, fc_path=Iface(PurePathI), fc_matcher=Opt(_MATCHER_REF),
+                   match_from_model=_FILE_REF)
+
+
+def _mk_applier(interp, name):
+    a = object.__new__(matches_full._Applier)
+    a.name = Str.make(interp, 'name')
+    a.files_condition = new_opaque(interp, FilesConditionI, 'files_condition')
+    a.model = new_opaque(interp, FilesMatcherModelI, 'model')
+    xs = interp.getattr(a.model, 'files_seq')
+    interp.getattr(a.files_condition, 'files')      # (created here, not inside a quantified clause)
+    pos = interp.st.fresh_int('model_files_iter.pos')
+    interp.st.assume(z3.And(pos >= 0, pos <= xs.length))
+    a.model_files_iter = SIter(xs, wrap(pos))
+    return a
+
+
+APPLIER = Custom(_mk_applier)
+
+
+def _advance(interp, args, kwargs):
+    it, n = args
+    it.pos = wrap(to_z3(it.pos) + to_z3(n))
+    return True
+
+
+def advance(it, n):
+    """proof level: the iterator has consumed n more items"""
+    raise NotImplementedError
+
+
+M.model(advance, _advance)
+
+
+def remaining(self):
+    return len(self.model_files_iter.xs) - self.model_files_iter.pos
+
+
+M.contract(P_MF + ':_Applier._try_get_num_files', params=dict(self=APPLIER, num_files=Int),
+           requires=lambda num_files: num_files >= 1,
+           old=lambda self: self.model_files_iter.pos,
+           returns=MListOf(_FILE_REF),
+           ensures={
+               # at call sites: the callee's effect on the iterator (contracts do not havoc the state of arguments)
+               'effect: the iterator is advanced': (lambda self, result: advance(self.model_files_iter, len(result)),
+                                                    'effect'),
+               'the next min(num_files, remaining) files': lambda self, num_files, result, old:
+               len(result) == min(num_files, len(self.model_files_iter.xs) - old)
+               and self.model_files_iter.pos == old + len(result),
+               'in order': lambda result, old: forall_range(0, len(result), lambda k: index_of(result[k]) == old + k),
+           }, raises_only=())
+M.loop(P_MF + ':_Applier._try_get_num_files', 0,
+       invariant=lambda _i, _start, ret_val, num_fetched, num_files:
+       len(ret_val) == _i - _start and num_fetched == len(ret_val) and num_fetched < num_files
+       and forall_range(0, len(ret_val), lambda k: index_of(ret_val[k]) == _start + k),
+       modifies=dict(ret_val=MListOf(_FILE_REF), num_fetched=Int, x='local'))
+
+M.contract(P_MF + ':_Applier._model_has_more_files', params=dict(self=APPLIER), returns=Bool,
+           old=lambda self: self.model_files_iter.pos,
+           ensures={'iff the iterator is not exhausted': lambda self, result, old:
+           iff(result, old < len(self.model_files_iter.xs))}, raises_only=())
+M.loop(P_MF + ':_Applier._model_has_more_files', 0, invariant=lambda _i, _start: _i == _start,
+       modifies=dict(_='local'))
+
+M.contract(P_MF + ':_Applier._continue_w_file_matcher_check',
+           params=dict(self=APPLIER, files=MListOf(_NAME_MATCH)), returns=Iface(MatchResultI),
+           ensures={'True iff every matcher accepts its file': lambda files, result:
+           iff(result.value, forall_range(0, len(files), lambda j: name_match_ok(files[j])))},
+           raises_only=())
+M.loop(P_MF + ':_Applier._continue_w_file_matcher_check', 0,
+       invariant=lambda _i, files: forall_range(0, _i, lambda j: name_match_ok(files[j])),
+       modifies=dict(name_match='local', file_model='local', matching_result='local'))
+
+
+def names_and_matchers_ok(fc, files, lo, hi):
+    """every file of files[lo:hi] has an expected name and is accepted by the matcher given for its name"""
+    return forall_range(lo, hi, lambda i: expected_name(fc, files[i]) and accepted_by_condition(fc, files[i]))
+
+
+def _corresponds(fc, nm, file):
+    return index_of(nm.match_from_model) == index_of(file) and iff(name_match_ok(nm), accepted_by_condition(fc, file))
+
+
+M.contract(P_MF + ':_Applier._continue_w_file_name_check',
+           params=dict(self=APPLIER, actual=MListOf(_FILE_REF)), returns=Iface(MatchResultI),
+           ensures={'True iff every file has an expected name and is accepted by the matcher of its name':
+                        lambda self, actual, result:
+                        iff(result.value, names_and_matchers_ok(self.files_condition, actual, 0, len(actual)))},
+           raises_only=())
+M.loop(P_MF + ':_Applier._continue_w_file_name_check', 0,
+       invariant=lambda _i, self, actual, name_matches:
+       len(name_matches) == _i
+       and forall_range(0, _i, lambda j: expected_name(self.files_condition, actual[j])
+                                         and _corresponds(self.files_condition, name_matches[j], actual[j])),
+       modifies=dict(name_matches=MListOf(_NAME_MATCH), actual_file='local', actual_as_pure_posix='local',
+                     corresponding_file_matcher='local'))
+
+
+def full_match(fc, files, lo):
+    """matches -full, for the files files[lo:]: as many files as names in the condition, every file has one of the
+    names and satisfies the matcher of its name.  (The relative paths of the files of a directory tree are pairwise
+    distinct, so `as many` and `every file has one of the names` make the two SETS of names equal: pigeonhole.)"""
+    return len(files) - lo == n_keys(fc) and names_and_matchers_ok(fc, files, lo, len(files))
+
+
+M.contract(P_MF + ':_Applier._start_w_num_files_check', params=dict(self=APPLIER), returns=Iface(MatchResultI),
+           old=lambda self: self.model_files_iter.pos,
+           ensures={'the documented verdict of matches -full': lambda self, result, old:
+           iff(result.value, full_match(self.files_condition, self.model_files_iter.xs, old))},
+           raises_only=())
+
+M.contract(P_MF + ':_Applier.apply', params=dict(self=APPLIER), inline=True,
+           old=lambda self: self.model_files_iter.pos,
+           ensures={'the documented verdict of matches -full': lambda self, result, old:
+           iff(result.value, full_match(self.files_condition, self.model_files_iter.xs, old))},
+           raises_only=())
+
+M.contract(P_MF + ':_Applier.__init__',
+           params=dict(self=Inst(matches_full._Applier), name=Str, files_condition=Iface(FilesConditionI),
+                       model=ANY_MODEL), inline=True,
+           ensures={'a new iterator over the files of the model': lambda self, files_condition, model:
+           self.files_condition is files_condition and self.model is model
+           and self.model_files_iter.xs is model.files_seq and self.model_files_iter.pos == 0}, raises_only=())
+
+M.assume('the relative paths of the files of a FilesMatcherModel are pairwise distinct (os.scandir gives each entry of '
+         'a directory once, names within a directory are distinct): with it, `as many files as names` and `every file '
+         'has one of the names` mean that the SET of relative paths equals the key set of the condition (pigeonhole)')
